@@ -749,6 +749,8 @@ def programs(tier):
     reg("add(x2,y2,where=m3(own chunks),out=o2)", lambda w, E: _add_where_out(w, E, (2,), (3,)), 6)
     reg("add(x2x2+1,y2x2,where=m2(1-d),out=o2x2)", lambda w, E: _add_where_out(w, E, (2, 2), (2,), mask_axes=(1,), pre=True), 6)
     reg("concatenate([rechunk(rechunk(x40)[0:10]),rechunk(rechunk(x40)[20:30])]) (same layout, two regions)", lambda w, E: _two_windows(w, E), 4)
+    reg("add(x2,y2,where=m2,out=o2)[a:b]", lambda w, E: p_slice(w, _add_where_out(w, E, (2,), (2,), aligned_mask=True), raw_index(E, (F,))), 6)
+    reg("add(x2,y2,where=m2,out=o2)[i]", lambda w, E: p_slice(w, _add_where_out(w, E, (2,), (2,), aligned_mask=True), raw_index(E, ("i",))), 4)
     reg("add(x2,y2,where=m,out=o)-add(x2,y2,where=m,out=p) (two masked calls, one graph)", lambda w, E: _two_masked_calls(w, E), 5)
     reg("rechunk(x2+y2)", lambda w, E: _rechunk_over(w, E, _add_aligned(w, E, (2,)), (3,)), 4)
     reg("rechunk(concatenate([x2,y2],0))", lambda w, E: _rechunk_over(w, E, p_concat(w, [source(w, E, "x", (2,)), source(w, E, "y", (2,))], 0), (3,)), 6)
@@ -797,13 +799,15 @@ def _square(w, E, m):
     return source(w, E, "x", (m, m), chunks=[x.node.chunks[0], x.node.chunks[0]])
 
 
-def _add_where_out(w, E, blocks, mask_blocks, mask_axes=None, pre=False):
+def _add_where_out(w, E, blocks, mask_blocks, mask_axes=None, pre=False, aligned_mask=False):
     """np.add(x, y, where=mask, out=o): the mask has its own chunking (and possibly fewer dimensions); pre: x is x0 + 1 (a
     fusable neighbour)"""
     x = source(w, E, "x", blocks)
     y = source(w, E, "y", blocks, chunks=x.node.chunks)
     o = source(w, E, "o", blocks, chunks=x.node.chunks)
-    if mask_axes is None:
+    if aligned_mask:
+        m = source(w, E, "m", blocks, chunks=x.node.chunks, dtype="bool")
+    elif mask_axes is None:
         m = source(w, E, "m", mask_blocks, shape=[sum(c) for c in x.node.chunks], dtype="bool")
     else:
         m = source(w, E, "m", mask_blocks, shape=[sum(x.node.chunks[a]) for a in mask_axes], dtype="bool")
